@@ -372,9 +372,10 @@ PROPS = {
         design_ref='DESIGN.md §4 C15',
         trusted_base=HEX_TRUSTED,
         explanation='Verus proves, for byte strings of every length and both representations, that '
-                    'empty/bytes/len/is_empty/to_vec/byte_at/tail/from_slice/from_vec of the real src/hex.rs are functions '
+                    'empty/bytes/len/is_empty/to_vec/byte_at/tail/from_slice/from_vec/print of the real src/hex.rs are functions '
                     'of the abstract byte string view() alone.',
-        not_covered=['from_str(print(h)) == h: format!/join/hex crate are outside both verifiers'],
+        not_covered=['from_str(print(h)) == h: the hex crate and String::replace are outside both verifiers (print() itself is '
+                     'verified: its text is determined by the byte string; a Kani round-trip harness gave no result in 15 min)'],
         parts=[parts.kani_group('kani-hex-inline-complete', C15_COMPLETE, complete=True),
                parts.kani_group('kani-hex-heap-bounded', C15_BOUNDED, complete=False, tier='thorough')],
         back_end_extra='Kani 0.68.0 -> CBMC 6.11 -> CaDiCaL for the Index/IndexMut/eq/i64/f64 harnesses',
